@@ -190,6 +190,35 @@ Theorem C01_join : forall a b, canonical a && canonical b = true ->
 Proof. exact join_holds. Qed.
 Print Assumptions C01_join.
 
+(* Match: kg_equal, given the representation (numeric ndarray / object ndarray of members, recursively) of both operands
+   as explicit inputs, returns the structural equality of the abstract values for EVERY valid pair of representations —
+   so Match (and Find with a list needle) cannot depend on whether an operand was written as a literal or computed *)
+Theorem C01_kg_equal_depends_on_value_only : kg_equal_ints_exact = true -> forall fuel a ra b rb,
+  (depth a + depth b < fuel)%nat ->
+  valid_rep a ra = true -> valid_rep b rb = true ->
+  match_kinds_ok a b = true -> k_close a b = false ->
+  kg_equal_rep false fuel a ra b rb = Ok (s_same a b).
+Proof. exact kg_equal_rep_spec. Qed.
+Print Assumptions C01_kg_equal_depends_on_value_only.
+Theorem C01_match_representation_independent : forall fuel a ra ra' b rb rb',
+  (depth a + depth b < fuel)%nat ->
+  valid_rep a ra = true -> valid_rep a ra' = true -> valid_rep b rb = true -> valid_rep b rb' = true ->
+  match_kinds_ok a b = true -> k_close a b = false ->
+  kg_equal_rep false fuel a ra b rb = kg_equal_rep false fuel a ra' b rb'.
+Proof. exact (kg_equal_rep_independent eq_refl). Qed.
+Print Assumptions C01_match_representation_independent.
+(* Match at the dispatcher; closed over the regenerated flags: integers compared exactly (fix: commit), no shape early exit *)
+Theorem C01_match : forall a b, canonical a && canonical b = true -> dom_dyad "eval_dyad_match" a b = true ->
+  m_dyad "eval_dyad_match" a b = s_dyad "eval_dyad_match" a b.
+Proof. exact (match_holds eq_refl eq_refl). Qed.
+Print Assumptions C01_match.
+(* with an early exit on unequal .shape the result depends on the representation: a slice of a mixed list vs a literal *)
+Theorem C01_match_shape_exit_refuted :
+  let a := VL [VL [VI 1; VI 2]; VL [VI 3; VI 4]] in
+  valid_rep a (RO [RN; RN]) = true /\ valid_rep a RN = true /\
+  kg_equal_rep true 10 a (RO [RN; RN]) a RN = Ok false /\ kg_equal_rep false 10 a (RO [RN; RN]) a RN = Ok true /\ s_same a a = true.
+Proof. exact shape_exit_refuted. Qed.
+
 (* Index: a list or string at an in-range integer or at a 1-D list of in-range integers (any order, repeats) *)
 Theorem C01_index : forall a b, canonical a && canonical b = true ->
   dom_dyad "eval_dyad_at_index" a b = true ->
@@ -251,30 +280,45 @@ Definition C01_full_statement : Prop :=
   (forall f a b, dom_dyad f a b = true -> m_dyad f (norm a) (norm b) = s_dyad f a b) /\
   (forall f a, dom_monad f a = true -> m_monad f (norm a) = s_monad f a).
 
-Theorem C01_known_classes_refuted :
-  refutes_m "homogenise" "eval_monad_first" (VL [VI 1; r25]) &&
-  refutes_d "broadcast" "eval_dyad_add" (VL [VI 1; VI 2]) m22 &&
-  refutes_d "no-object-loop" "eval_dyad_minimum" (VL [VI 1; VL [VI 2; VI 3]]) (VL [VI 1; VL [VI 2; VI 3]]) &&
-  refutes_d "take-matrix" "eval_dyad_take" (VI 3) m22 &&
-  refutes_m "first-of-string" "eval_monad_first" (VS [97; 98; 99]) &&
-  refutes_m "floor-overflow" "eval_monad_floor" (VR (real_of_bits 6103021453049119613)) &&
-  refutes_d "match-tolerance" "eval_dyad_match" (VI 100000) (VI 100001) &&
-  refutes_d "reshape-char-0" "eval_dyad_reshape" (VI 0) (VC 97) &&
-  refutes_d "reshape-nested" "eval_dyad_reshape" (VL [VI 2]) (VL [VL [VI 1; VI 2; VI 3]]) &&
-  refutes_d "find-nested" "eval_dyad_find" (VL [VL [VI 1; VI 2]; VL [VI 1; VI 1]]) (VI 1) &&
-  refutes_d "find-symbol" "eval_dyad_find" (VL [VY [97]; VY [98]]) (VY [97]) &&
-  refutes_d "join-ragged" "eval_dyad_join" m22 a223 &&
-  refutes_m "char-of-empty" "eval_monad_char" (VL []) &&
-  refutes_m "expand-empty" "eval_monad_expand_where" (VL []) = true.
-Proof. exact refuted_witnesses. Qed.
+Theorem C01_homogenise_refuted : refutes_m "homogenise" "eval_monad_first" (VL [VI 1; r25]) = true.
+Proof. exact refuted_homogenise. Qed.
+Theorem C01_broadcast_refuted : refutes_d "broadcast" "eval_dyad_add" (VL [VI 1; VI 2]) m22 = true.
+Proof. exact refuted_broadcast. Qed.
+Theorem C01_no_object_loop_refuted : refutes_d "no-object-loop" "eval_dyad_minimum" (VL [VI 1; VL [VI 2; VI 3]]) (VL [VI 1; VL [VI 2; VI 3]]) = true.
+Proof. exact refuted_no_object_loop. Qed.
+Theorem C01_take_matrix_refuted : refutes_d "take-matrix" "eval_dyad_take" (VI 3) m22 = true.
+Proof. exact refuted_take_matrix. Qed.
+Theorem C01_first_of_string_refuted : refutes_m "first-of-string" "eval_monad_first" (VS [97; 98; 99]) = true.
+Proof. exact refuted_first_of_string. Qed.
+Theorem C01_floor_overflow_refuted : refutes_m "floor-overflow" "eval_monad_floor" (VR (real_of_bits 6103021453049119613)) = true.
+Proof. exact refuted_floor_overflow. Qed.
+Theorem C01_reshape_char_0_refuted : refutes_d "reshape-char-0" "eval_dyad_reshape" (VI 0) (VC 97) = true.
+Proof. exact refuted_reshape_char_0. Qed.
+Theorem C01_reshape_nested_refuted : refutes_d "reshape-nested" "eval_dyad_reshape" (VL [VI 2]) (VL [VL [VI 1; VI 2; VI 3]]) = true.
+Proof. exact refuted_reshape_nested. Qed.
+Theorem C01_find_nested_refuted : refutes_d "find-nested" "eval_dyad_find" (VL [VL [VI 1; VI 2]; VL [VI 1; VI 1]]) (VI 1) = true.
+Proof. exact refuted_find_nested. Qed.
+Theorem C01_find_symbol_refuted : refutes_d "find-symbol" "eval_dyad_find" (VL [VY [97]; VY [98]]) (VY [97]) = true.
+Proof. exact refuted_find_symbol. Qed.
+Theorem C01_join_ragged_refuted : refutes_d "join-ragged" "eval_dyad_join" m22 a223 = true.
+Proof. exact refuted_join_ragged. Qed.
+Theorem C01_char_of_empty_refuted : refutes_m "char-of-empty" "eval_monad_char" (VL []) = true.
+Proof. exact refuted_char_of_empty. Qed.
+Theorem C01_expand_empty_refuted : refutes_m "expand-empty" "eval_monad_expand_where" (VL []) = true.
+Proof. exact refuted_expand_empty. Qed.
+Theorem C01_shape_ragged_refuted : refutes_m "shape-ragged" "eval_monad_shape" (VL [VI 1; VL [VI 2]]) = true.
+Proof. exact refuted_shape_ragged. Qed.
+Theorem C01_shape_strlike_member_refuted : refutes_m "shape-strlike-member" "eval_monad_shape" (VL [VC 97; VC 98]) = true.
+Proof. exact refuted_shape_strlike_member. Qed.
+Theorem C01_group_sorted_order_refuted : refutes_m "group-sorted-order" "eval_monad_groupby" (VS [104; 101; 108; 108; 111; 32; 102; 111; 111]) = true.
+Proof. exact refuted_group_sorted_order. Qed.
+Theorem C01_group_non_numeric_refuted : refutes_m "group-non-numeric" "eval_monad_groupby" (VL [VI 1; VS [97]]) = true.
+Proof. exact refuted_group_non_numeric. Qed.
+Theorem C01_range_string_sorted_refuted : refutes_m "range-string-sorted" "eval_monad_range" (VS [104; 101; 108; 108; 111]) = true.
+Proof. exact refuted_range_string_sorted. Qed.
+Theorem C01_match_ints_refuted_without_fix : isclose_gen false (VI 100000) (VI 100001) = true /\ s_same (VI 100000) (VI 100001) = false.
+Proof. exact match_ints_without_fix. Qed.
 
-Theorem C01_known_classes_refuted_2 :
-  refutes_m "shape-ragged" "eval_monad_shape" (VL [VI 1; VL [VI 2]]) &&
-  refutes_m "shape-strlike-member" "eval_monad_shape" (VL [VC 97; VC 98]) &&
-  refutes_m "group-sorted-order" "eval_monad_groupby" (VS [104; 101; 108; 108; 111; 32; 102; 111; 111]) &&
-  refutes_m "group-non-numeric" "eval_monad_groupby" (VL [VI 1; VS [97]]) &&
-  refutes_m "range-string-sorted" "eval_monad_range" (VS [104; 101; 108; 108; 111]) = true.
-Proof. exact refuted_witnesses_2. Qed.
 
 (* the statements C01_rotate / C01_reverse are false of the code before the fix: commits (flag = false) *)
 Theorem C01_rotate_refuted_without_axis0 :
